@@ -89,8 +89,8 @@ def r2_single_decrement(ctx):
                     'the increment in Recv::recv_headers is dominated by !stream.is_counted (interim 1xx responses on a pushed stream report is_initial again; 0.4.16 double count)')
 
 
-def r4_refusal(ctx):
-    r = ctx.rule('C05.R4', 'GUARD', 'over-limit peer streams are refused: no Some(id) without the limit test, refusal recorded, nothing inserted on None')
+def r4_refusal(ctx, rid='C05.R4'):
+    r = ctx.rule(rid, 'GUARD', 'over-limit peer streams are refused: no Some(id) without the limit test, refusal recorded, nothing inserted on None')
     F = ctx.facts
     op = r.fn(P + 'recv::Recv::open')
     if op:
